@@ -288,6 +288,23 @@ def table_diff(obs, ref, skipq, skipx4=False):
     return None
 
 
+def csv_mismatch(path, res):
+    """The requested output file must hold the returned table (same columns, same rows; pandas writes repr precision)."""
+    import pandas as pd
+
+    if not os.path.exists(path):
+        return "file was not written"
+    back = pd.read_csv(path)
+    os.remove(path)
+    if list(back.columns) != list(res.columns):
+        return f"columns {list(back.columns)} != returned {list(res.columns)}"
+    if back.shape != res.shape:
+        return f"shape {back.shape} != returned {res.shape}"
+    if not np.allclose(back.values.astype(float), res.values.astype(float), rtol=1e-12, atol=1e-14, equal_nan=True):
+        return "values differ from the returned table"
+    return None
+
+
 # ------------------------------------------------------------------------------------------ relaxation
 def run_relax(case):
     W = World(case, int(case["seed"]))
@@ -342,8 +359,17 @@ def run_relax(case):
                 cond = np.array(masks[0], dtype=bool)
             else:
                 cond = np.array(masks, dtype=bool)
-            res = D.relaxation(qconst=W.qconst, condition=cond)
+            csvf = "c06_out.csv" if case.get("csv") else ""
+            if csvf and os.path.exists(csvf):
+                os.remove(csvf)
+            res = D.relaxation(qconst=W.qconst, condition=cond, **({"outputfile": csvf} if csvf else {}))
             clause = case["sub"].split(".", 1)[1]
+            if csvf:
+                msg = csv_mismatch(csvf, res)
+                if msg:
+                    R.fail(f"outputfile of {'LogDynamics' if cls == 'log' else 'Dynamics'}.relaxation: {msg}",
+                           sig=dict(sigbase, clause="outputfile", cls=cls))
+                    nfail += 1
             if list(res.columns) != COLS:
                 R.fail(f"columns {list(res.columns)}", sig=dict(sigbase, clause=clause, col="columns"), exp=COLS, obs=list(res.columns))
                 nfail += 1
@@ -430,8 +456,16 @@ def run_s4(case):
             D, snaps = fresh_objects(W, xs, o["mode"], steps, "lin", nfile)
             cond = None if masks is None else np.array(masks, dtype=bool)
             # the lag is passed the way a user would type it (0.6, not 3 * 0.2 = 0.6000000000000001)
-            res = D.sq4(t=round(k * 100 * DT, 9), qrange=case["qrange"], condition=cond)
+            csvf = "c06_s4.csv" if case.get("csv") else ""
+            if csvf and os.path.exists(csvf):
+                os.remove(csvf)
+            res = D.sq4(t=round(k * 100 * DT, 9), qrange=case["qrange"], condition=cond, **({"outputfile": csvf} if csvf else {}))
             ncalls += 1
+            if csvf:
+                msg = csv_mismatch(csvf, res)
+                if msg:
+                    R.fail(f"outputfile of Dynamics.sq4: {msg}", sig=dict(sigbase, col="outputfile"))
+                    nfail += 1
             if max(sizes) >= 2 and len(set(sizes)) >= 1:
                 multi += 1
             if list(res.columns) != ["q", "Sq"]:
@@ -479,7 +513,7 @@ def gen_linear(tier, seed):
         yield from roots(S, 2, d, 4, "pp", "bulk", {}, calls)
     # unwrapped input, periodic flags set, box smaller than the displacements: no reduction may happen
     yield from roots(S, 2, 2, 3, "pp", "bulk", {}, ["xu", "both"], L=[2.0, 2.0], ppp_xu=1)
-    yield from roots(S, 2, 2, 3, "pp", "bulk", {"qconst": "5", "diam": "eq"}, calls)
+    yield from roots(S, 2, 2, 3, "pp", "bulk", {"qconst": "5", "diam": "eq"}, calls, csv=True)
     if tier == "thorough":
         yield from roots(S, 3, 2, 4, "pp", "bulk", {}, calls)
         yield from roots(S, 2, 2, 5, "pp", "bulk", {}, calls)
@@ -493,7 +527,7 @@ def gen_log(tier, seed):
     for d in (2, 3):
         yield from roots(S, 2, d, 4, "pp", "bulk", {}, calls)
     for o in ({"cal": "fast"}, {"neigh": 1}, {"sel": "type"}, {"mode": "x"}, {"neigh": 2, "sel": "vary"}, {"neigh": 3}):
-        yield from roots(S, 3, 2, 3, "pp", "tri", o, calls)
+        yield from roots(S, 3, 2, 3, "pp", "tri", o, calls, csv=("sel" in o))
     if tier == "thorough":
         yield from roots(S, 3, 2, 5, "joint", "tri", {"neigh": 1}, calls)
         yield from roots(S, 3, 3, 3, "pp", "tri", {"neigh": 2}, calls)
@@ -591,7 +625,7 @@ def gen_s4(tier, seed):
     S = "C06.s4"
     yield from roots(S, 3, 2, 3, "pp", "tri", {"mode": "xu", "cal": "slow"}, [], qrange=2.0)
     for mode, cal in (("x", "fast"), ("both", "slow"), ("xu", "fast"), ("x", "slow")):
-        yield from roots(S, 2, 2, 3, "pp", "face", {"mode": mode, "cal": cal}, [], qrange=3.2)
+        yield from roots(S, 2, 2, 3, "pp", "face", {"mode": mode, "cal": cal}, [], qrange=3.2, csv=(mode == "both"))
     maxdev = None if tier == "thorough" else 2
     for ov in option_vectors(maxdev, S4_DOMS):
         d = ov.pop("d")
